@@ -188,6 +188,14 @@ def check_scorer(acc, name, n, p, which, lattice=False):
             "1d-wrong": (np.array(g[:-1]), "ValueError"),
             "object-float-strings": (np.array([[str(x) for x in g]]), "ValueError"),
         }
+        # non-integer entries in containers other than an ndarray (a conversion with dtype=int would truncate them silently)
+        gf = [float(v) for v in g[:-1]] + [g[-1] - 0.5]
+        mal["list-float"] = ([gf], "ValueError")
+        mal["tuple-float"] = ((tuple(gf),), "ValueError")
+        mal["list-integral-floats"] = ([[float(v) for v in g]], "ValueError")
+        mal["list-bool"] = ([[bool(v) for v in g]], "ValueError")
+        mal["list-digit-strings"] = ([[str(v) for v in g]], "ValueError")
+        mal["dataframe-float"] = (__import__("pandas").DataFrame([gf]), "ValueError")
         # wrong-width arrays whose entries COULD be re-chunked into valid rows of the expected width (2 valid rows laid
         # out as one flat vector or with any other width): the width itself is wrong, so ValueError
         flat = g + g
